@@ -456,7 +456,7 @@ impl Track {
         return l;
     }
     pub fn write_cc_on_time(&mut self, cc_no: isize, ia: Vec<isize>) {
-        let freq = self.cc_on_time_freq;
+        let freq = if self.cc_on_time_freq < 1 { 1 } else { self.cc_on_time_freq }; // avoid divide by zero
         for i in 0..ia.len() / 3 {
             let low = ia[i*3+0];
             let high = ia[i*3+1];
@@ -473,7 +473,7 @@ impl Track {
         }
     }
     pub fn write_pb_on_time(&mut self, is_big: isize, ia: Vec<isize>, timebase: isize) {
-        let freq = timebase / 32;
+        let freq = if timebase < 32 { 1 } else { timebase / 32 }; // avoid divide by zero
         for i in 0..ia.len() / 3 {
             let mut low = ia[i*3+0];
             let mut high = ia[i*3+1];
@@ -489,7 +489,7 @@ impl Track {
             for j in 0..len {
                 if (j % freq) == 0 {
                     let v = (high - low) as f32 * (j as f32 / len as f32) + low as f32;
-                    let v = value_range(0, v as isize, 0x7f7f);
+                    let v = value_range(0, v as isize, 16383); // 14bit
                     let e = Event::pitch_bend(self.timepos + j, self.channel, v);
                     self.events.push(e);
                 }
